@@ -6,7 +6,7 @@ import json
 import re
 import numpy as np
 from fractions import Fraction
-from vf import core
+from vf import core, traced
 
 S = 1.0 / 16.0
 
@@ -97,7 +97,11 @@ def replay(log, method, sign):
         raised = None
         out = None
         try:
-            out = integ(rhs, t, y, {}, np.float64(sign * c["h"] * S))
+            with traced.wall_clock(60.0):
+                out = integ(rhs, t, y, {}, np.float64(sign * c["h"] * S))
+        except traced.BudgetExceeded:
+            mism.append({"call": ci + 1, "what": "Outcome", "model": end["k"], "code": "did not return within 60 s"})
+            return {"mismatches": mism, "calls": ci + 1}
         except Injected as x:
             raised = "fault"
         except de.exception_types.FailedToMeetTolerances:
